@@ -669,7 +669,22 @@ impl TypeSpace {
                     let type_name = if let RefKey::Def(name) = ref_name {
                         Name::Required(name.clone())
                     } else {
-                        Name::Unknown
+                        // The root schema is only converted when it has a
+                        // title (see add_root_schema). Use the title as the
+                        // name hint so that anonymous sub-types (e.g. the
+                        // struct payload of an enum variant) can be named,
+                        // as they are when the same schema is added through
+                        // add_type().
+                        match &schema {
+                            Schema::Object(schemars::schema::SchemaObject {
+                                metadata: Some(metadata),
+                                ..
+                            }) => metadata
+                                .title
+                                .clone()
+                                .map_or(Name::Unknown, Name::Suggested),
+                            _ => Name::Unknown,
+                        }
                     };
                     self.convert_ref_type(type_name, schema, type_id.clone())?;
 
